@@ -253,7 +253,7 @@ def run(tier):
         R.under_contract(fi_init)
         reset_vs_constructor(reg, init_records)
         # the setting operations of the histories: each changes its setting (and what depends on it) and nothing of the run state
-        for fi in ctor.check_setters(reg, src, PID):
+        for fi in ctor.check_setters(reg, src, PID) + ctor.check_method_ops(reg, src, PID):
             R.under_contract(fi)
         frame_completeness(reg, src)
         aliasing_and_determinism(reg, src)
